@@ -140,6 +140,9 @@ def run_family(fam, tier, sd, workdir, binp=None, use_cache=True):
         wtotal = None
         if fam.startswith("win-"):
             scheds, envstates, wtotal = windows.generate(fam, WNUM[tier], sd, workdir)
+        elif fam == "ready":
+            from . import readygen
+            scheds, envstates = readygen.generate(n, sd, workdir)
         else:
             scheds, envstates = families.generate(fam, n, sd, workdir)
             scheds = directed.schedules(fam) + scheds
